@@ -191,6 +191,15 @@ func (fc *FuncCtx) execInstr(fr *Frame, st *State, ins ssa.Instruction) {
 	case *ssa.MapUpdate:
 		mv := fc.valOf(fr, t.Map)
 		if mv.Origin == nil {
+			// composite literal `map[K]V{k: v, ...}`: go/ssa emits MakeMap followed by MapUpdates on the MakeMap register
+			// before the map is stored anywhere - the fresh map has no alias yet, so the register's value is updated in place
+			if mk, ok := t.Map.(*ssa.MakeMap); ok && freshMapLiteral(mk, t) && mv.T != nil {
+				k := v.asTerm(st, fc.valOf(fr, t.Key))
+				val := v.asTerm(st, fc.valOf(fr, t.Value))
+				nm := c.Ctor(mv.T.Sort, c.Store(c.FieldOf(mv.T, 0), k, c.Bool(true)), c.Store(c.FieldOf(mv.T, 1), k, val))
+				fr.vals[mk] = Val{T: nm, GoT: mk.Type()}
+				return
+			}
 			unsupported("map update on a map value without a variable origin")
 		}
 		m := v.load(st, mv.Origin)
@@ -539,7 +548,21 @@ func (fc *FuncCtx) execSlice(fr *Frame, st *State, t *ssa.Slice) {
 		}
 		fr.vals[t] = Val{T: r, GoT: t.Type()}
 	case *types.Basic:
-		unsupported("string slicing")
+		// s[lo:hi] of a string: an uninterpreted function of (s, lo, hi) with the bounds checked; nothing else is known of the
+		// result except its length (sound: whatever a contract needs beyond that cannot be proved)
+		sv := v.asTerm(st, fc.valOf(fr, t.X))
+		if sv.Sort != v.tm.SStr {
+			unsupported("string slicing of sort %s", sv.Sort.Name)
+		}
+		n := c.UF("str_len", SInt, sv)
+		st.assume(c, c.Cmp(">=", n, c.Int(0)))
+		if hi == nil {
+			hi = n
+		}
+		fc.safety(st, "slice", c.And(c.Cmp("<=", c.Int(0), lo), c.Cmp("<=", lo, hi), c.Cmp("<=", hi, n)), t.Pos(), "string slice bounds within length")
+		r := c.UF("str_slice", v.tm.SStr, sv, lo, hi)
+		st.assume(c, c.Eq(c.UF("str_len", SInt, r), c.Arith("-", hi, lo)))
+		fr.vals[t] = Val{T: r, GoT: t.Type()}
 	default:
 		unsupported("slice of %s", t.X.Type())
 	}
@@ -614,4 +637,36 @@ func (fc *FuncCtx) execTypeAssert(fr *Frame, st *State, t *ssa.TypeAssert) {
 		fc.safety(st, "typeassert", ok, t.Pos(), "type assertion succeeds")
 		fr.vals[t] = Val{T: val, GoT: t.AssertedType}
 	}
+}
+
+// freshMapLiteral reports whether the MapUpdate `upd` on the MakeMap register `mk` belongs to the initialisation of a map
+// composite literal: same block, and between the MakeMap and the update the register is used by nothing but other MapUpdates
+// (so the map cannot have been stored or passed on, i.e. it has no alias yet).
+func freshMapLiteral(mk *ssa.MakeMap, upd *ssa.MapUpdate) bool {
+	b := mk.Block()
+	if b == nil || upd.Block() != b {
+		return false
+	}
+	seen := false
+	for _, ins := range b.Instrs {
+		if ins == ssa.Instruction(mk) {
+			seen = true
+			continue
+		}
+		if !seen {
+			continue
+		}
+		if ins == ssa.Instruction(upd) {
+			return true
+		}
+		if _, isUpd := ins.(*ssa.MapUpdate); isUpd {
+			continue
+		}
+		for _, op := range ins.Operands(nil) {
+			if op != nil && *op == ssa.Value(mk) {
+				return false
+			}
+		}
+	}
+	return false
 }
